@@ -148,6 +148,15 @@ def sweep(args):
             ctx.check('sweep-individual-vector', Not(ec.same_vec(ind.vector, vectors[i])))
             ctx.check('sweep-costs', len(ind.costs) != o or Or(*[a != b for a, b in zip(ind.costs, calls[i][1])]))
             ctx.check('sweep-state', ind.state != Individual.State.EVALUATED)
+        # multi-step: the SAME generator object drives a second sweep (the same design set on a second study): again
+        # exactly its designs, in order
+        alg2 = SweepAlgorithm(prob, generator=gen)
+        alg2.run()
+        calls2 = prob.h.calls[nvec:]
+        ctx.check('second-sweep-with-the-same-generator-count', len(calls2) != nvec or len(prob.individuals) != 2 * nvec)
+        if len(calls2) == nvec:
+            for i in range(nvec):
+                ctx.check('second-sweep-with-the-same-generator-order', Not(ec.same_vec(calls2[i][0], vectors[i])))
     return body
 
 
